@@ -205,6 +205,7 @@ class SElem(Cell):
         self.dom = dom
         self.site = site
         self.name = "%s[%s]" % (arr.name, idx)
+        self.serial = 1 << 60
 
     def get(self):
         a = self.arr
